@@ -396,9 +396,12 @@ def execute_cell(ctx, case):
                 ctx.event("payload_read_back")
 
     # -- every way of naming the source
-    def one(naming, make_reader, sub=""):
+    detail0 = detail
+
+    def one(naming, make_reader, sub="", note=None):
         rd, got, err = drain(make_reader)
         what = "via %s%s" % (naming, sub)
+        detail = dict(detail0, note=note) if note else detail0
         ctx.event("reads:" + naming)
         if err is not None:
             ctx.violation(None, "%s: reading raised %s" % (what, type(err).__name__),
@@ -408,7 +411,7 @@ def execute_cell(ctx, case):
             ctx.violation(None, "%s: RecordReader returned %s" % (what, type(rd).__name__), detail=dict(detail, naming=naming + sub))
         if compare(ctx, container, records, before, got, what, dict(detail, naming=naming + sub)):
             ctx.cell(codec, container, naming)
-            ctx.nontrivial("cell", codec, container, case["s"], naming)
+            ctx.nontrivial("cell", codec, container, case["s"], naming, sub, note)
         ctx.event("records_read", len(got))
 
     one("ext", lambda: RecordReader(url))
@@ -435,14 +438,12 @@ def execute_cell(ctx, case):
     # rdump with stdin named through an explicit scheme, and a worker doing RecordReader('<scheme>://-')
     ci = CODECS.index(codec)
     scheme = "stream" if container == "stream" else "avro"
+    dash, bare = scheme + "://-", scheme + "://"  # both spellings per cell: they alternate over the sequences
     stdin_variants = [
         ("stdin", (seq + ci) % 2, "rdump - -w" if (seq + ci) % 2 == 0 else "rdump -w"),
-        ("stdin-scheme", scheme + ("://-" if (seq // 2 + ci) % 2 == 0 else "://"), None),
-        ("stdin-scheme-worker", ("worker", scheme + ("://" if (seq // 2 + ci) % 2 == 0 else "://-")), None),
+        ("stdin-scheme", dash if (seq + ci) % 2 == 0 else bare, None),
+        ("stdin-scheme-worker", ("worker", bare if (seq + ci) % 2 == 0 else dash), None),
     ]
-    if seq % 2:
-        stdin_variants[1], stdin_variants[2] = (("stdin-scheme", scheme + ("://" if (seq // 2 + ci) % 2 == 0 else "://-"), None),
-                                                ("stdin-scheme-worker", ("worker", scheme + ("://-" if (seq // 2 + ci) % 2 == 0 else "://")), None))
     for naming, variant, label in stdin_variants:
         rc, stderr, out, stdout = run_rdump(ctx, raw, variant)
         if rc is None:
@@ -452,6 +453,7 @@ def execute_cell(ctx, case):
         what = "via stdin (%s)" % label
         d2 = dict(detail, naming=naming, returncode=rc, stderr=stderr[-600:])
         ctx.event("reads:" + naming)
+        ctx.event("stdin_form:" + label.replace(scheme + "://", "<scheme>://"))
         if rc != 0 or not os.path.exists(out):
             ctx.violation(None, "%s: the subprocess failed" % what, detail=d2)
         else:
@@ -514,7 +516,7 @@ def offset_reads(ctx, case, container, records, before, raw, detail, one):
                 f = open(path, "rb") if okind == "buffered" else io.FileIO(path, "r")
             try:
                 f.seek(len(pre))
-                one("offset-" + okind, lambda: RecordReader(fileobj=f), sub="(preamble: %s)" % pname)
+                one("offset-" + okind, lambda: RecordReader(fileobj=f), note="preamble of %d bytes: %s; object seek()ed to the payload" % (len(pre), pname))
             finally:
                 try:
                     f.close()
